@@ -100,12 +100,28 @@ func runC12Blocks(sc *BlockScript) *sim.Outcome {
 		}
 	}
 	nEv := len(m.A.SMP)
+	m.asked = false
 	m.fromR(m.R.SendOpts(nil, ref.DataOpts{Flags: 1, TLVs: tlvs}))
 	m.Settle(nil, nil)
 	if succ, _, _, _, _ := smpFlags(m.A.SMP[nEv:]); succ {
 		{
 			return o.Fail("C12/false-success", "a data message carrying the TLV block %v made the victim report SMP success (state before: %q)", sc.Block, sc.Pre)
 		}
+	}
+	// an abort followed by a first message in one data message is what an honest peer sends when its user starts over
+	// while a run is in progress: the receiver must ask for the secret
+	honestRestart := len(sc.Block) >= 2 && !hasDisc
+	for i, k := range sc.Block {
+		last := i == len(sc.Block)-1
+		if last && k != "smp1" && k != "smp1q" || !last && k != "abort" && k != "pad" && k != "junk" {
+			honestRestart = false
+		}
+	}
+	if honestRestart && sc.Block[len(sc.Block)-2] == "abort" {
+		if !m.asked {
+			return o.Fail("C12/restart-unanswerable", "a data message carrying %v (an abort and a new first message, as sent by a peer whose user starts over) did not make the victim ask for the secret (state before: %q, events %v)", sc.Block, sc.Pre, m.A.SMP[nEv:])
+		}
+		o.Class("honest-restart-shape")
 	}
 	if nSMP >= 2 {
 		o.Class("several-smp-tlvs")
